@@ -44,6 +44,7 @@ static void * participant(void * a) {
 static void run(int tier, int prog) {
   build(); cur = &P[tier][prog];
   mv_start(cur->W);
+  h_maybe_custom_steal(prog, cur->W);
   h_barrier_init(&bar, prog & 1, cur->N);
   myth_thread_t th[4]; int nt = 0;
   int nc = cur->main_in ? cur->N - 1 : cur->N;
